@@ -507,8 +507,44 @@ struct EarlyWords {
 };
 __attribute__((init_priority(101))) static EarlyWords early_words;
 
+// One word longer than 32 bits can count (2^32 + 5 bytes; thorough tier, one worker; about 9 GiB of address space, of which the
+// copy kept by the Lexicon is resident): its length and its bytes at both ends and on either side of the 2^32 boundary are
+// preserved, it is found again, and the 5-byte word that a length reduced modulo 2^32 would leave is another word.
+static void huge_word(Ctx& C)
+{
+   const std::size_t n = (std::size_t(1) << 32) + 5;
+   char8_t* buf = static_cast<char8_t*>(std::calloc(n, 1));
+   if (!buf) { C.count("huge_word_skipped_for_lack_of_memory"); return; }
+   buf[0] = u8'h'; buf[4] = u8'!'; buf[(std::size_t(1) << 32) - 1] = u8'b'; buf[std::size_t(1) << 32] = u8'm'; buf[n - 1] = u8'z';
+   {
+      impl::Lexicon lex;
+      const String& s = lex.get_string(util::word_view(buf, n));
+      auto w = s.characters();
+      const std::string where = J().n("length", (long long)n).str();
+      if (w.size() != n) C.viol("content-at-return:longer-than-32-bits:length", "a word of 2^32+5 bytes was interned with length " + std::to_string(w.size()), where);
+      else {
+         if (w[0] != u8'h' || w[4] != u8'!' || w[(std::size_t(1) << 32) - 1] != u8'b' || w[std::size_t(1) << 32] != u8'm' || w[n - 1] != u8'z' || w[n - 2] != 0 || w[12345678901ull % n] != 0)
+            C.viol("content-at-return:longer-than-32-bits:bytes", "a word of 2^32+5 bytes does not have its bytes", where);
+         if (s.size() != n) C.viol("content-at-return:longer-than-32-bits:size", "String::size() of a word of 2^32+5 bytes is " + std::to_string(s.size()), where);
+      }
+      if (&lex.get_string(util::word_view(buf, n)) != &s) C.viol("equal-content-different-node:longer-than-32-bits", "interning a word of 2^32+5 bytes again returned another node", where);
+      const String& five = lex.get_string(util::word_view(buf, 5));
+      if (&five == &s) C.viol("different-content-same-node:longer-than-32-bits", "the first 5 bytes of a word of 2^32+5 bytes are the same node as the word", where);
+      if (five.characters().size() != 5) C.viol("content-at-return:longer-than-32-bits:prefix", "the 5-byte word interned after a word of 2^32+5 bytes has another length", where);
+      C.count("words_longer_than_32_bits_interned");
+   }
+   std::free(buf);
+}
+
 static void body(Ctx& C)
 {
+   // quick tier too when the machine has memory to spare (at least 24 GiB available right now); lack of memory is never a verdict
+   {
+      long long avail_kib = 0; if (std::FILE* mi = std::fopen("/proc/meminfo", "r")) { char line[256]; while (std::fgets(line, sizeof line, mi)) if (std::sscanf(line, "MemAvailable: %lld kB", &avail_kib) == 1) break; std::fclose(mi); }
+      const bool roomy = avail_kib >= 24ll * 1024 * 1024;
+      if (C.worker == 0 && ((C.thorough && avail_kib >= 12ll * 1024 * 1024) || roomy || std::getenv("VERIF_C03_HUGE"))) huge_word(C);
+      else if (C.worker == 0) C.count("huge_word_skipped_for_lack_of_memory");
+   }
    C.rule("a case = one interned word, distinct by content; sources are exact-size heap buffers without terminator; families: every "
           "length 0..96, every multiple of 16 +-{0,1,7,8,9}, all 256 byte values, NUL placements, equal-hash equal-length chains "
           "(constructed by inverting the platform hash and verified with std::hash), pool-boundary requests steered through the hook "
